@@ -71,10 +71,23 @@ pub struct TcpSocketImpl {
     socket: net::TcpStream,
     /// The address of the remote host.
     address: SocketAddr,
+    #[cfg(gamedig_verif)]
+    verif_conn: Option<usize>,
 }
 
 impl Socket for TcpSocketImpl {
     fn new(address: &SocketAddr, timeout_settings: &Option<TimeoutSettings>) -> GDResult<Self> {
+        #[cfg(gamedig_verif)]
+        if let Some(r) = crate::verif_hook::on_new(true, address) {
+            let conn = r.map_err(|k| k.context("scripted refusal"))?;
+            let socket = Self {
+                socket: crate::verif_hook::placeholder_stream(),
+                address: *address,
+                verif_conn: Some(conn),
+            };
+            socket.apply_timeout(timeout_settings)?;
+            return Ok(socket);
+        }
         let socket = TimeoutSettings::get_connect_or_default(timeout_settings).map_or_else(
             || net::TcpStream::connect(address),
             |timeout| net::TcpStream::connect_timeout(address, timeout),
@@ -83,6 +96,8 @@ impl Socket for TcpSocketImpl {
         let socket = Self {
             socket: socket.map_err(|e| SocketConnect.context(e))?,
             address: *address,
+            #[cfg(gamedig_verif)]
+            verif_conn: None,
         };
 
         socket.apply_timeout(timeout_settings)?;
@@ -99,11 +114,19 @@ impl Socket for TcpSocketImpl {
     }
 
     fn send(&mut self, data: &[u8]) -> GDResult<()> {
+        #[cfg(gamedig_verif)]
+        if let Some(r) = crate::verif_hook::on_send(self.verif_conn, &self.address, data) {
+            return r;
+        }
         self.socket.write(data).map_err(|e| PacketSend.context(e))?;
         Ok(())
     }
 
     fn receive(&mut self, size: Option<usize>) -> GDResult<Vec<u8>> {
+        #[cfg(gamedig_verif)]
+        if let Some(r) = crate::verif_hook::on_receive(self.verif_conn, true, size) {
+            return r;
+        }
         let mut buf = Vec::with_capacity(size.unwrap_or(DEFAULT_PACKET_SIZE));
         self.socket
             .read_to_end(&mut buf)
@@ -124,15 +147,24 @@ pub struct UdpSocketImpl {
     socket: net::UdpSocket,
     /// The address of the remote host.
     address: SocketAddr,
+    #[cfg(gamedig_verif)]
+    verif_conn: Option<usize>,
 }
 
 impl Socket for UdpSocketImpl {
     fn new(address: &SocketAddr, timeout_settings: &Option<TimeoutSettings>) -> GDResult<Self> {
+        #[cfg(gamedig_verif)]
+        let verif_conn = match crate::verif_hook::on_new(false, address) {
+            Some(r) => Some(r.map_err(|k| k.context("scripted refusal"))?),
+            None => None,
+        };
         let socket = net::UdpSocket::bind("0.0.0.0:0").map_err(|e| SocketBind.context(e))?;
 
         let socket = Self {
             socket,
             address: *address,
+            #[cfg(gamedig_verif)]
+            verif_conn,
         };
 
         socket.apply_timeout(timeout_settings)?;
@@ -149,6 +181,10 @@ impl Socket for UdpSocketImpl {
     }
 
     fn send(&mut self, data: &[u8]) -> GDResult<()> {
+        #[cfg(gamedig_verif)]
+        if let Some(r) = crate::verif_hook::on_send(self.verif_conn, &self.address, data) {
+            return r;
+        }
         self.socket
             .send_to(data, self.address)
             .map_err(|e| PacketSend.context(e))?;
@@ -157,6 +193,10 @@ impl Socket for UdpSocketImpl {
     }
 
     fn receive(&mut self, size: Option<usize>) -> GDResult<Vec<u8>> {
+        #[cfg(gamedig_verif)]
+        if let Some(r) = crate::verif_hook::on_receive(self.verif_conn, false, size) {
+            return r;
+        }
         let mut buf: Vec<u8> = vec![0; size.unwrap_or(DEFAULT_PACKET_SIZE)];
         let (number_of_bytes_received, _) = self
             .socket
